@@ -6,7 +6,7 @@
 //   view : the program view computed by the generator (read by the Lean driver only; the harness ignores it and
 //          reports the same facts from the real assembler, so a wrong view shows as a disagreement)
 //   -> st=0 p1end=<hex> en=<l|b> p1list=<hexname,...|-> list=<hexname,...|-> syms=<hexname:addr,...|->
-//        app=<hex addr>:<hex bytes>|-
+//        app=<hex addr>:<hex bytes>|- img=<whole image as in `prog`>
 //      st=1 stage=<addfile|notimport|pass1|link1|pass2|link2>
 //   p1end  : asm_context.address when link() is entered in pass 1
 //   p1list : the linker's needed-symbol list after pass 1 of the source (before link())
@@ -130,6 +130,8 @@ static std::string cmd_link(const std::vector<std::string> &args)
       if (count == 0) { app += "-"; }
     }
     out += " app=" + app;
+    // everything below is for the property oracle only (the model does not produce it)
+    out += " img=" + dump_image(&ctx->memory, false);
   } while (0);
 
   if (stage != NULL)
